@@ -85,6 +85,9 @@ Record call := {
 
 Inductive op :=
   | Call (c : call)
+  (* direct call of the public accessor rbasex.get_bs_cached(Rmax, order, odd,
+     direction, reg, valid, basis_dir) *)
+  | GetBs (rmax order : nat) (odd fwd : bool) (reg vid : nat) (bd : bdarg) (listing : list fkey)
   | Cleanup (sel : csel)
   | DirCleanup (bd : bdarg)
   | SetDir (bd : bdarg)
@@ -210,69 +213,88 @@ Definition save_bs (dir : option nat) (rmax order : nat) (odd : bool) (b : rcont
       else None
   end.
 
-Definition get_bs (s : st) (rmax order : nat) (odd fwd : bool) (reg vid : nat) (bd : bdarg)
-           (listing : list fkey) : st * res acont :=
-  let (g, dir) := resolve (gdir s) bd in
+(* stage 1 of get_bs_cached: the basis.  Returns the state, the flag new_bs
+   and the exception if _load_bs raised *)
+Definition stage1 (s : st) (rmax order : nat) (odd fwd : bool) (reg : nat) (listing : list fkey)
+           (g : bdglobal) (dir : option nat) : st * bool * option exc :=
   let need := match bs s with None => true | Some _ => negb (prm_eqb (bs_prm s) rmax order odd) end in
   let bp := Some (rmax, order, odd) in
-  (* stage 1: the basis *)
-  let stage1 : st * bool * option exc :=
-    if need then
-      match load_bs dir rmax order odd (negb fwd && (reg =? 0)) listing (dk s) with
-      | LRaise e => (upd s bp (bs s) (tri_full s) (trf s) (tri_prm s) (tri s) g (dk s), false, Some e)
-      | LSome b t => (upd s bp (Some b) t None None None g (dk s), false, None)
-      | LNone => (upd s bp (Some (ideal rmax order odd)) None None None None g (dk s), true, None)
+  if need then
+    match load_bs dir rmax order odd (negb fwd && (reg =? 0)) listing (dk s) with
+    | LRaise e => (upd s bp (bs s) (tri_full s) (trf s) (tri_prm s) (tri s) g (dk s), false, Some e)
+    | LSome b t => (upd s bp (Some b) t None None None g (dk s), false, None)
+    | LNone => (upd s bp (Some (ideal rmax order odd)) None None None None g (dk s), true, None)
+    end
+  else (upd s (bs_prm s) (bs s) (tri_full s) (trf s) (tri_prm s) (tri s) g (dk s), false, None).
+
+(* stage 2 (inverse direction): the inverse matrices for `reg` *)
+Definition stage2 (s1 : st) (new_bs : bool) (b : rcont) (rmax reg order : nat) (odd : bool) (vid : nat)
+           (g : bdglobal) : st * bool * option exc :=
+  if opt_eqb (tri_prm s1) (Some reg) then (s1, new_bs, None)
+  else
+    let s2 := upd s1 (bs_prm s1) (bs s1) (tri_full s1) (trf s1) (Some reg) (tri s1) g (dk s1) in
+    if reg_raises reg order odd then (s2, new_bs, Some EValue)
+    (* np.eye(Rmax + 1) / diag([..] * (Rmax + 1)) meet matrices of another size
+       (only possible with a basis left under a wrong key) *)
+    else if negb (r_rmax b =? rmax) &&
+            (((reg =? 0) && match tri_full s2 with None => true | Some _ => false end) ||
+             (reg =? 2) || (reg =? 3))
+    then (s2, new_bs, Some EShape)
+    else if reg =? 0 then
+      match tri_full s2 with
+      | Some t => (upd s2 (bs_prm s2) (bs s2) (tri_full s2) (trf s2) (tri_prm s2)
+                       (Some (AInv 0 t vid)) g (dk s2), new_bs, None)
+      | None => (upd s2 (bs_prm s2) (bs s2) (Some b) (trf s2) (tri_prm s2)
+                     (Some (AInv 0 b vid)) g (dk s2), true, None)
       end
-    else (upd s (bs_prm s) (bs s) (tri_full s) (trf s) (tri_prm s) (tri s) g (dk s), false, None) in
-  match stage1 with
+    else (upd s2 (bs_prm s2) (bs s2) (tri_full s2) (trf s2) (tri_prm s2)
+              (Some (AInv reg b vid)) g (dk s2), new_bs, None).
+
+(* what follows stage 1 *)
+Definition finish_bs (s1 : st) (new_bs : bool) (b : rcont) (rmax order : nat) (odd fwd : bool)
+           (reg vid : nat) (g : bdglobal) (dir : option nat) : st * res acont :=
+  if fwd then
+    match trf s1 with
+    | Some a => (s1, Ret a)
+    | None =>
+        let a := AFwd b vid in
+        if new_bs then
+          match save_bs dir rmax order odd b None (dk s1) with
+          | None => (s1, Raise EOther)
+          | Some d' => (upd s1 (bs_prm s1) (bs s1) (tri_full s1) (Some a) (tri_prm s1) (tri s1) g d', Ret a)
+          end
+        else (upd s1 (bs_prm s1) (bs s1) (tri_full s1) (Some a) (tri_prm s1) (tri s1) g (dk s1), Ret a)
+    end
+  else
+    match stage2 s1 new_bs b rmax reg order odd vid g with
+    | (s3, _, Some e) => (s3, Raise e)
+    | (s3, nb, None) =>
+        match tri s3 with
+        | None => (s3, Raise EOther)         (* `return None`: the caller fails on zip(None, p) *)
+        | Some a =>
+            if nb then
+              match save_bs dir rmax order odd b (tri_full s3) (dk s3) with
+              | None => (s3, Raise EOther)
+              | Some d' => (upd s3 (bs_prm s3) (bs s3) (tri_full s3) (trf s3) (tri_prm s3) (tri s3) g d', Ret a)
+              end
+            else (s3, Ret a)
+        end
+    end.
+
+(* numbers >= 1000 stand for all-true masks (1000 + length; also valid=None):
+   `if valid is None or valid.all(): invalid = None` — no masking at all *)
+Definition norm_vid (v : nat) : nat := if 1000 <=? v then 0 else v.
+
+Definition get_bs (s : st) (rmax order : nat) (odd fwd : bool) (reg vid : nat) (bd : bdarg)
+           (listing : list fkey) : st * res acont :=
+  let vid := norm_vid vid in
+  let (g, dir) := resolve (gdir s) bd in
+  match stage1 s rmax order odd fwd reg listing g dir with
   | (s1, _, Some e) => (s1, Raise e)
   | (s1, new_bs, None) =>
       match bs s1 with
       | None => (s1, Raise EOther)
-      | Some b =>
-          if fwd then
-            match trf s1 with
-            | Some a => (s1, Ret a)
-            | None =>
-                let a := AFwd b vid in
-                if new_bs then
-                  match save_bs dir rmax order odd b None (dk s1) with
-                  | None => (s1, Raise EOther)
-                  | Some d' => (upd s1 (bs_prm s1) (bs s1) (tri_full s1) (Some a) (tri_prm s1) (tri s1) g d', Ret a)
-                  end
-                else (upd s1 (bs_prm s1) (bs s1) (tri_full s1) (Some a) (tri_prm s1) (tri s1) g (dk s1), Ret a)
-            end
-          else
-            let hit := opt_eqb (tri_prm s1) (Some reg) in
-            (* stage 2: the inverse matrices *)
-            let stage2 : st * bool * option exc :=
-              if hit then (s1, new_bs, None)
-              else
-                let s2 := upd s1 (bs_prm s1) (bs s1) (tri_full s1) (trf s1) (Some reg) (tri s1) g (dk s1) in
-                if reg_raises reg order odd then (s2, new_bs, Some EValue)
-                else if reg =? 0 then
-                  match tri_full s2 with
-                  | Some t => (upd s2 (bs_prm s2) (bs s2) (tri_full s2) (trf s2) (tri_prm s2)
-                                   (Some (AInv 0 t vid)) g (dk s2), new_bs, None)
-                  | None => (upd s2 (bs_prm s2) (bs s2) (Some b) (trf s2) (tri_prm s2)
-                                 (Some (AInv 0 b vid)) g (dk s2), true, None)
-                  end
-                else (upd s2 (bs_prm s2) (bs s2) (tri_full s2) (trf s2) (tri_prm s2)
-                          (Some (AInv reg b vid)) g (dk s2), new_bs, None) in
-            match stage2 with
-            | (s3, _, Some e) => (s3, Raise e)
-            | (s3, nb, None) =>
-                match tri s3 with
-                | None => (s3, Raise EOther)         (* `return None`: the caller fails on zip(None, p) *)
-                | Some a =>
-                    if nb then
-                      match save_bs dir rmax order odd b (tri_full s3) (dk s3) with
-                      | None => (s3, Raise EOther)
-                      | Some d' => (upd s3 (bs_prm s3) (bs s3) (tri_full s3) (trf s3) (tri_prm s3) (tri s3) g d', Ret a)
-                      end
-                    else (s3, Ret a)
-                end
-            end
+      | Some b => finish_bs s1 new_bs b rmax order odd fwd reg vid g dir
       end
   end.
 
@@ -315,6 +337,11 @@ Definition step_call (s : st) (c : call) : st * res rres :=
 Definition step (s : st) (o : op) : st * res rres :=
   match o with
   | Call c => step_call s c
+  | GetBs rmax order odd fwd reg vid bd listing =>
+      match get_bs s rmax order odd fwd reg vid bd listing with
+      | (s2, Raise e) => (s2, Raise e)
+      | (s2, Ret a) => (s2, Ret {| q_pid := 0; q_wver := 0; q_a := a; q_img := None; q_want := None |})
+      end
   | Cleanup sel =>
       let all := match sel with CAll => true | _ => false end in
       let f := match sel with CAll | CFwd => true | _ => false end in
@@ -381,9 +408,17 @@ Definition fresh_call (c : call) : call :=
      c_bd := match c_bd c with BPath d => if dir_writable d then BPath 1 else c_bd c | b => b end;
      c_listing := [] |}.
 
+Definition fresh_bd (bd : bdarg) : bdarg :=
+  match bd with BPath d => if dir_writable d then BPath 1 else bd | b => b end.
+
 Definition fresh (o : op) : res rres :=
   match o with
   | Call c => snd (step_call init (fresh_call c))
+  | GetBs rmax order odd fwd reg vid bd _ =>
+      match get_bs init rmax order odd fwd reg vid (fresh_bd bd) [] with
+      | (_, Raise e) => Raise e
+      | (_, Ret a) => Ret {| q_pid := 0; q_wver := 0; q_a := a; q_img := None; q_want := None |}
+      end
   | _ => Raise EOther
   end.
 
@@ -404,7 +439,7 @@ Record obs := {
   o_bs_prm : list nat; o_nbs : list nat; o_has_tri_full : bool; o_has_trf : bool;
   o_tri_prm : list nat; o_gdir : nat; o_files : list (list nat) }.
 
-Definition is_call (o : op) : bool := match o with Call _ => true | _ => false end.
+Definition is_call (o : op) : bool := match o with Call _ | GetBs _ _ _ _ _ _ _ _ => true | _ => false end.
 
 Definition fkey_code (d : nat) (k : fkey) : list nat :=
   [d; fk_rmax k; fk_order k; if fk_odd k then 1 else 0; if fk_inv k then 1 else 0].
@@ -475,3 +510,49 @@ Fixpoint all_agree (s : st) (ops : list op) : bool :=
   | o :: r => let (s', res) := step s o in
               (if is_call o then out_eqv res (fresh o) else true) && all_agree s' r
   end.
+
+(* ---- hazards: the program paths behind the recorded findings ------------------------------ *)
+Definition uses_bad_dir (s : st) (bd : bdarg) : bool :=
+  match snd (resolve (gdir s) bd) with Some di => negb (dir_writable di) | None => false end.
+
+Definition fcont_honest (k : fkey) (f : fcont) : bool :=
+  rcont_eqb (f_c f) (ideal (fk_rmax k) (fk_order k) (fk_odd k)) && eqb (f_inv f) (fk_inv k).
+
+Definition reuses_dst (s : st) (c : call) : bool :=
+  opt_eqb (prm s) (Some (c_pid c)) && (wobj s =? c_wid c).
+
+Definition hazard (s : st) (o : op) : bool :=
+  match o with
+  | Call c =>
+      negb (c_fail c =? 0) ||                       (* Distributions raises: _prm without usable _dst *)
+      reg_raises (c_reg c) (c_order c) (c_odd c) || (* _tri_prm assigned, then ValueError *)
+      uses_bad_dir s (c_bd c) ||                    (* listdir / save raise after _bs_prm was assigned *)
+      (* the cached Distributions object is reused although the weights content
+         changed (or, against the consistency assumption, rmax / valid differ) *)
+      (reuses_dst s c &&
+       negb (match dst s with
+             | DOk _ _ v r vid => (v =? c_wver c) && (r =? c_rmax c) && (vid =? c_vid c)
+             | _ => false
+             end)) ||
+      (* the cached image basis is reused for another output geometry *)
+      (reuses_dst s c &&
+       match ibs s, c_geom c with
+       | Some i, Some g => negb (geom_eqb (Some i) (Some g))
+       | _, _ => false
+       end)
+  | GetBs _ _ _ _ _ _ _ _ => true    (* _trf / _tri are not keyed by `valid`: see accessor_mask_refuted *)
+  | Seed d k c =>
+      match c with
+      | FShape => true
+      | FGood f => negb (fcont_honest k f)
+      | FBad _ => false
+      end
+  | _ => false
+  end.
+
+Fixpoint no_hazard (s : st) (ops : list op) : bool :=
+  match ops with [] => true | o :: r => negb (hazard s o) && no_hazard (fst (step s o)) r end.
+
+Definition damage (o : op) : bool := match o with Seed _ _ (FBad _) => true | _ => false end.
+Fixpoint no_damage (ops : list op) : bool :=
+  match ops with [] => true | o :: r => negb (damage o) && no_damage r end.
